@@ -115,6 +115,37 @@ class Analysis:
         for n in ast.walk(node):
             if isinstance(n, ast.Assign) and isinstance(n.value, (ast.List, ast.ListComp)) and len(n.targets) == 1 and isinstance(n.targets[0], ast.Name):
                 ctx["locals_list"].add(n.targets[0].id)
+        # names that only ever hold text / numbers in this function (assigned from such expressions, loop counters, text parameters)
+        nt = set()
+        assigns = [(n.targets[0].id, n.value) for n in ast.walk(node)
+                   if isinstance(n, ast.Assign) and len(n.targets) == 1 and isinstance(n.targets[0], ast.Name)]
+        assigns += [(n.target.id, n.value) for n in ast.walk(node) if isinstance(n, ast.AugAssign) and isinstance(n.target, ast.Name)]
+        # tuple unpacking of a tuple display: element-wise
+        for n in ast.walk(node):
+            if isinstance(n, ast.Assign) and len(n.targets) == 1 and isinstance(n.targets[0], ast.Tuple) and isinstance(n.value, ast.Tuple) \
+                    and len(n.targets[0].elts) == len(n.value.elts):
+                assigns += [(t.id, v) for t, v in zip(n.targets[0].elts, n.value.elts) if isinstance(t, ast.Name)]
+        other_targets = set()
+        for n in ast.walk(node):
+            if isinstance(n, (ast.For, ast.comprehension)):
+                other_targets |= {t.id for t in ast.walk(n.target) if isinstance(t, ast.Name)}
+            if isinstance(n, ast.Assign):
+                for t in n.targets:
+                    if isinstance(t, ast.Tuple) and not (isinstance(n.value, ast.Tuple) and len(t.elts) == len(n.value.elts)):
+                        other_targets |= {x.id for x in ast.walk(t) if isinstance(x, ast.Name)}
+            if isinstance(n, (ast.With, ast.ExceptHandler)) and getattr(n, "name", None):
+                other_targets.add(n.name)
+        ctx["assigned"] = {a for a, _ in assigns} | other_targets
+        bd = set()
+        for _ in range(4):
+            c2 = dict(ctx, non_temporal=nt, bounded=bd)
+            for name in {a for a, _ in assigns} - other_targets:
+                if all(not self.maybe_temporal(v, c2) for a, v in assigns if a == name):
+                    nt.add(name)
+                if all(self.bounded(v, c2) for a, v in assigns if a == name):
+                    bd.add(name)
+        ctx["non_temporal"] = nt
+        ctx["bounded"] = bd
         out = self.block(source.strip_docstring(node.body), ctx)
         self.in_progress.discard(label)
         self.memo[label] = out
@@ -283,10 +314,91 @@ class Analysis:
                 if isinstance(part, ast.Name) and (isinstance(e, ast.IfExp) or isinstance(e.op, ast.And)):
                     g.add(("truthy", part.id))
             return out
+        if isinstance(e, ast.BinOp) and isinstance(e.op, (ast.Add, ast.Sub, ast.Mult)) and not (self.bounded(e.left, ctx) and self.bounded(e.right, ctx)):
+            if self.maybe_temporal(e.left, ctx) and self.maybe_temporal(e.right, ctx) or \
+                    (isinstance(e.op, ast.Mult) and (self.maybe_temporal(e.left, ctx) or self.maybe_temporal(e.right, ctx))):
+                out.add("OverflowError")      # date / datetime / timedelta arithmetic leaves the representable range
+                self.assumed_used.add("+ - * and unary minus on values that may be date / datetime / timedelta objects raise OverflowError at most "
+                                      "(TypeError for mixed operand types is a precondition: operands come from the same decoder)")
+        if isinstance(e, ast.UnaryOp) and isinstance(e.op, ast.USub) and self.maybe_temporal(e.operand, ctx) and not self.bounded(e.operand, ctx):
+            out.add("OverflowError")          # -timedelta: the range of timedelta is not symmetric
         for c in ast.iter_child_nodes(e):
             if isinstance(c, ast.expr):
                 out |= self.expr(c, ctx)
         return out
+
+    INT_ATTRS = {"days", "seconds", "microseconds", "year", "month", "day", "hour", "minute", "second", "microsecond", "relative", "leap"}
+    NON_TEMPORAL_CALLS = {"int", "len", "str", "float", "ord", "chr", "bool", "repr", "bytes", "tuple", "list", "sorted", "range", "divmod", "round",
+                          "to_unicode", "from_unicode", "escape_char", "unescape_char", "dquote", "foldline", "q_join", "param_value"}
+
+    def bounded(self, e, ctx):
+        """is the magnitude of the value bounded by a small constant (so that one more + - or negation stays far inside the range of
+        timedelta / int)?  Numbers read from a slice of constant width, constants, and timedelta(...) / sums / negations of those."""
+        if isinstance(e, ast.Constant):
+            return isinstance(e.value, (int, float)) and abs(e.value) < 10 ** 6
+        if isinstance(e, ast.Name):
+            return e.id in ctx.get("bounded", ())
+        if isinstance(e, ast.BoolOp) and isinstance(e.op, ast.Or):
+            return all(self.bounded(v, ctx) or (isinstance(v, ast.Subscript) and self.const_width_slice(v)) for v in e.values)
+        if isinstance(e, ast.Call) and isinstance(e.func, ast.Name):
+            if e.func.id == "int" and len(e.args) == 1 and not e.keywords:
+                a = e.args[0]
+                if isinstance(a, ast.BoolOp) and isinstance(a.op, ast.Or):
+                    return all((isinstance(v, ast.Subscript) and self.const_width_slice(v)) or self.bounded(v, ctx) for v in a.values)
+                return isinstance(a, ast.Subscript) and self.const_width_slice(a)
+            if e.func.id == "timedelta":
+                return all(self.bounded(a, ctx) for a in e.args) and all(self.bounded(k.value, ctx) for k in e.keywords)
+            return False
+        if isinstance(e, ast.UnaryOp) and isinstance(e.op, ast.USub):
+            return self.bounded(e.operand, ctx)
+        if isinstance(e, ast.BinOp) and isinstance(e.op, (ast.Add, ast.Sub)):
+            return self.bounded(e.left, ctx) and self.bounded(e.right, ctx)
+        return False
+
+    @staticmethod
+    def const_width_slice(e):
+        sl = e.slice
+        if not isinstance(sl, ast.Slice) or sl.step is not None:
+            return False
+        lo = 0 if sl.lower is None else (sl.lower.value if isinstance(sl.lower, ast.Constant) and isinstance(sl.lower.value, int) else None)
+        hi = sl.upper.value if isinstance(sl.upper, ast.Constant) and isinstance(sl.upper.value, int) else None
+        return lo is not None and hi is not None and 0 <= lo <= hi and hi - lo <= 6
+
+    def maybe_temporal(self, e, ctx):
+        """can the value be a date / datetime / time / timedelta object?  (conservative: unknown means yes)"""
+        if isinstance(e, (ast.Constant, ast.JoinedStr, ast.List, ast.Tuple, ast.Dict, ast.Set, ast.ListComp, ast.Compare, ast.BoolOp)) and not \
+                (isinstance(e, ast.BoolOp)):
+            return False
+        if isinstance(e, ast.Name):
+            if e.id in ctx.get("non_temporal", ()):
+                return False
+            if e.id in TEXT_NAMES and e.id not in ctx.get("assigned", ()):
+                return False                 # a parameter with a name that holds text by convention
+            return True
+        if isinstance(e, ast.Attribute):
+            return e.attr not in self.INT_ATTRS
+        if isinstance(e, ast.Call):
+            f = e.func
+            if isinstance(f, ast.Name) and f.id in self.NON_TEMPORAL_CALLS:
+                return False
+            if isinstance(f, ast.Attribute) and f.attr in ("encode", "decode", "join", "upper", "lower", "strip", "replace", "format", "to_ical", "group",
+                                                           "total_seconds", "strftime", "split", "sub", "index", "find", "count"):
+                return False
+            return True
+        if isinstance(e, ast.BinOp):
+            if isinstance(e.op, ast.Mod) or isinstance(e.op, (ast.FloorDiv, ast.Div)) and not self.maybe_temporal(e.left, ctx):
+                return False
+            l, r = self.maybe_temporal(e.left, ctx), self.maybe_temporal(e.right, ctx)
+            if isinstance(e.op, ast.Mult):
+                return l or r
+            return l and r                  # str + x / int + x with one side known: the other side has the same kind (or TypeError: precondition)
+        if isinstance(e, ast.UnaryOp):
+            return self.maybe_temporal(e.operand, ctx)
+        if isinstance(e, ast.Subscript):
+            return self.maybe_temporal(e.value, ctx)
+        if isinstance(e, ast.IfExp):
+            return self.maybe_temporal(e.body, ctx) or self.maybe_temporal(e.orelse, ctx)
+        return True
 
     def call(self, e, ctx):
         f = e.func
